@@ -40,7 +40,7 @@ func checkC05(c *Ctx) {
 	// necessary condition for the (otherwise undecided) Control Change value byte: positions within the reported range normalise into [-1,1]
 	ruleNormalisation(c, dv, "R5.6")
 	// and the deadzone rescale divides (v -/+ dz) by (1 - dz) of the SAME dz: the shaped value stays within [-1,1]
-	c.importRules(rescaleRules, []string{"R6.10", "R6.11"}, "R5.7") // and the centre shift 2v-1 is applied to unsigned positions only
+	c.importRules(rescaleRules, []string{"R6.10", "R6.11", "R6.13"}, "R5.7") // and the centre shift 2v-1 is applied to unsigned positions only
 	c.MinCount("R5.1", 3)
 	c.MinCount("R5.2", 12)
 	c.MinCount("R5.3", 12)
@@ -235,6 +235,22 @@ func ctorCalls(v ssa.Value, dv *dev, seen map[ssa.Value]bool) ([]*ssa.Call, bool
 		// an element of a list of messages that a helper of the package built from constructor results
 		if ia, ok := x.X.(*ssa.IndexAddr); ok && x.Op == token.MUL {
 			return sliceElemCtorCalls(ia.X, dv, seen)
+		}
+		// a local variable holding the value (the loop variable of a range over the list)
+		if a, ok := x.X.(*ssa.Alloc); ok && x.Op == token.MUL {
+			var out []*ssa.Call
+			n := 0
+			for _, r := range *a.Referrers() {
+				if st, ok := r.(*ssa.Store); ok && st.Addr == ssa.Value(a) {
+					cs, ok := ctorCalls(st.Val, dv, seen)
+					if !ok {
+						return nil, false
+					}
+					out = append(out, cs...)
+					n++
+				}
+			}
+			return out, n > 0 && len(out) > 0
 		}
 		return nil, false
 	case *ssa.Parameter:
@@ -619,7 +635,37 @@ func ruleEstablishInvariants(c *Ctx, dv *dev, pf *parserFacts) {
 				pos := c.P.Pos(mu.Pos())
 				lit := literalOf(mu.Value)
 				if lit == nil {
-					c.Undec("R5.3", key, pos, "tracker value is not an array literal")
+					// built elsewhere (a small constructor of a named pair type): the scalars the two elements can hold
+					l0, ok0 := pf.componentLeaves(mu.Value, nil, 0, 0)
+					l1, ok1 := pf.componentLeaves(mu.Value, nil, 1, 0)
+					if !ok0 || !ok1 || len(l0) == 0 || len(l1) == 0 {
+						c.Undec("R5.3", key, pos, "tracker value is not an array literal")
+						continue
+					}
+					bad := ""
+					var whys []string
+					for i, ls := range [][]leafVal{l0, l1} {
+						hi := int64(127)
+						if i == 1 {
+							hi = 15
+						}
+						for _, l := range ls {
+							if l.v == nil {
+								bad = "element not resolved"
+								continue
+							}
+							okv, why := pf.proveRange(l.v, l.at, 0, hi, 0)
+							if !okv {
+								bad = why
+							}
+							whys = append(whys, why)
+						}
+					}
+					if bad == "" {
+						c.OK("R5.3", key, pos, "note / channel: "+strings.Join(whys, "; "))
+					} else {
+						c.Bad("R5.3", key, pos, "tracker entry not proven in range: "+bad)
+					}
 					continue
 				}
 				elems := arrayElems(lit)
@@ -725,6 +771,25 @@ func sliceElemCtorCalls(s ssa.Value, dv *dev, seen map[ssa.Value]bool) ([]*ssa.C
 	switch x := s.(type) {
 	case *ssa.Const:
 		return nil, x.Value == nil // the nil slice has no elements
+	case *ssa.Parameter:
+		// the (variadic) list parameter of a sending helper: every static call site
+		sites, all := staticCallSites(dv.p, x.Parent())
+		idx := paramIndex(x)
+		if !all || len(sites) == 0 || idx < 0 {
+			return nil, false
+		}
+		var out []*ssa.Call
+		for _, cs := range sites {
+			if idx >= len(cs.Common().Args) {
+				return nil, false
+			}
+			cc, ok := sliceElemCtorCalls(cs.Common().Args[idx], dv, seen)
+			if !ok {
+				return nil, false
+			}
+			out = append(out, cc...)
+		}
+		return out, true
 	case *ssa.Phi:
 		var out []*ssa.Call
 		for _, e := range x.Edges {
@@ -751,10 +816,10 @@ func sliceElemCtorCalls(s ssa.Value, dv *dev, seen map[ssa.Value]bool) ([]*ssa.C
 						return nil, false
 					}
 					cs, ok := ctorCalls(st.Val, dv, seen)
-					if !ok || len(cs) == 0 {
+					if !ok {
 						return nil, false
 					}
-					out = append(out, cs...)
+					out = append(out, cs...) // (empty when the same constructor call was already counted through another list)
 					n++
 				}
 			case *ssa.Slice:
